@@ -847,7 +847,11 @@ class OpOperands(Sequence[SSAValue]):
     def __setitem__(self, idx: int, operand: SSAValue) -> None:
         operands = self._op._operands  # pyright: ignore[reportPrivateUsage]
         operand_uses = self._op._operand_uses  # pyright: ignore[reportPrivateUsage]
-        operands[idx].remove_use(operand_uses[idx])
+        old_operand = operands[idx]
+        if idx < 0:
+            # Normalise: `operands[idx + 1 :]` below is the whole tuple for `idx == -1`.
+            idx += len(operands)
+        old_operand.remove_use(operand_uses[idx])
         operand.add_use(operand_uses[idx])
         new_operands = SSAValues((*operands[:idx], operand, *operands[idx + 1 :]))
         self._op._operands = new_operands  # pyright: ignore[reportPrivateUsage]
@@ -1166,6 +1170,9 @@ class Operation(_IRNode):
         else:
             region_idx = region
             region = self.regions[region_idx]
+            if region_idx < 0:
+                # Normalise: `regions[region_idx + 1 :]` below is the whole tuple for `-1`.
+                region_idx += len(self.regions)
         region.parent = None
         self.regions = self.regions[:region_idx] + self.regions[region_idx + 1 :]
         return region
@@ -2140,7 +2147,11 @@ class OpSuccessors(Sequence[Block]):
     def __setitem__(self, idx: int, successor: Block) -> None:
         successors = self._op._successors  # pyright: ignore[reportPrivateUsage]
         successor_uses = self._op._successor_uses  # pyright: ignore[reportPrivateUsage]
-        successors[idx].remove_use(successor_uses[idx])
+        old_successor = successors[idx]
+        if idx < 0:
+            # Normalise: `successors[idx + 1 :]` below is the whole tuple for `idx == -1`.
+            idx += len(successors)
+        old_successor.remove_use(successor_uses[idx])
         successor.add_use(successor_uses[idx])
         new_successors = (*successors[:idx], successor, *successors[idx + 1 :])
         self._op._successors = new_successors  # pyright: ignore[reportPrivateUsage]
